@@ -1,6 +1,46 @@
-(** Entry points for C06 (stub: replaced by the property's own entry file). *)
-From Coq Require Import ZArith List.
-From GV Require Import Base.Val.
+(** Entry points for C06 (FASTA text layer, compression detection, file signature).
+    The specification [signature_spec] itself is op 103 (Entry/E01.v). *)
+From Coq Require Import ZArith List Bool.
+From GV Require Import Base.Val Base.CSem Spec.C01 Model.C01 Model.C06Fasta Model.C06Gzip Model.C06 Entry.Codec.
+Import ListNotations.
 Open Scope Z_scope.
 
-Definition dispatch (op : Z) (a : val) : val := vbad.
+Definition vrecord (r : record) : val := VL [vZs (fst r); vZs (snd r)].
+Definition to_record (v : val) : record :=
+  match v with VL [t; s] => (to_Zs t, to_Zs s) | _ => ([], []) end.
+
+Definition vfres {A} (f : A -> val) (r : fres A) : val :=
+  match r with
+  | FOk a => vok (f a)
+  | FErr BadGzip => verr 10
+  | FErr NoHeader => verr 3
+  | FErr (Calc e) => verr (err_code e)
+  end.
+
+Definition dispatch (op : Z) (a : val) : val :=
+  match op with
+  (* 1: universal_newlines text -> text *)
+  | 1 => vZs (universal_newlines (to_Zs a))
+  (* 2: split_lines text -> lines (terminators kept) *)
+  | 2 => vlist vZs (split_lines (to_Zs a))
+  (* 3: parse_fasta text -> ok [(title seq) ...] / error 3 (ValueError) *)
+  | 3 => vres (vlist vrecord) (parse_fasta (to_Zs a))
+  (* 4: render_fasta (w crlf final_nl contigs) -> text *)
+  | 4 => match a with
+         | VL [VI w; crlf; fnl; cs] =>
+             vZs (render_fasta (Z.to_nat w) (to_bool crlf) (to_bool fnl) (map to_record (to_list cs)))
+         | _ => vbad end
+  (* 5: guess_compression: does the content start with 1f 8b *)
+  | 5 => vbool (is_gzip_magic (to_Zs a))
+  (* 6: text_signature (dense k p text) -> ok (sig itemsize?) / error *)
+  | 6 => match a with
+         | VL [VI d; VI k; p; text] =>
+             vfres (fun r => VL [vZs (fst r); vopt VI (snd r)])
+                   (text_signature (negb (d =? 0)) k (to_Zs p) (to_Zs text))
+         | _ => vbad end
+  (* 7: well-formedness of a contig list for the round-trip theorem *)
+  | 7 => vbool (forallb wf_contig (map to_record (to_list a)))
+  (* 8: str.rstrip on ASCII *)
+  | 8 => vZs (rstrip (to_Zs a))
+  | _ => vbad
+  end.
